@@ -89,7 +89,7 @@ PROPS = {
                 pending=['Harmless for the remaining non-mutators', 'writes_classified for the machine step']),
     'C14': dict(obligations=lambda: P('SqProps.C14') + T('SqTie.Consts', 'cast_dict_keys_tie'),
                 slices=['ops'], monitors=['c14'],
-                pending=['ops_refine (induction over whole operation sequences against the abstract spec)']),
+                pending=['ops_refine for lists through the heap (the list object IS a mathematical list; index normalisation proved); dict ops_refine proved over all operation sequences']),
     'C15': dict(obligations=lambda: P('SqProps.C15') + TIE_LEX + TIE_GRAM + TIE_TOK,
                 slices=['layout'], monitors=['c15'],
                 pending=['lex_extra_blank over whole texts (character-level half; the token-level half is proved: SqLemmas/ParseLayout.lean)']),
